@@ -57,6 +57,9 @@ pub struct Profile {
     pub end_forget_pct: u32,
     pub downgrade_pct: u32,
     pub final_drain: bool,
+    /// percentage of cases in which the broker's Receive Maximum differs between the connections of
+    /// one session (legal: the value belongs to each CONNACK); otherwise the first connection's is used
+    pub vary_rm_pct: u32,
 }
 
 impl Default for Profile {
@@ -106,6 +109,7 @@ impl Default for Profile {
             end_forget_pct: 10,
             downgrade_pct: 0,
             final_drain: false,
+            vary_rm_pct: 25,
         }
     }
 }
@@ -442,12 +446,14 @@ pub fn cfg(p: &Profile) -> BoxedStrategy<Cfg> {
 }
 
 pub fn case(p: &Profile) -> BoxedStrategy<Case> {
-    (cfg(p), pct(p.auto_broker_pct), prop::collection::vec(conn_script(p), p.conns.0..=p.conns.1))
-        .prop_map(|(cfg, auto, mut conns)| {
+    (cfg(p), pct(p.auto_broker_pct), prop::collection::vec(conn_script(p), p.conns.0..=p.conns.1), pct(p.vary_rm_pct))
+        .prop_map(|(cfg, auto, mut conns, vary_rm)| {
             // one broker: its limits do not change between the connections of a case
             if let Some(first) = conns.first().map(|c| c.connect.props.clone()) {
                 for c in conns.iter_mut().skip(1) {
-                    c.connect.props.receive_max = first.receive_max;
+                    if !vary_rm {
+                        c.connect.props.receive_max = first.receive_max;
+                    }
                     c.connect.props.max_packet = first.max_packet;
                     c.connect.props.max_qos = first.max_qos;
                 }
